@@ -134,7 +134,7 @@ func configs05(tier string) []xplore.Config {
 			}
 		}
 		// two paths per list (overlapping and disjoint)
-		for _, pair := range [][]string{{"a", "a/b"}, {"a/b", "b"}, {"*", "a"}, {"a/*", "*/b"}, {"o:a", "a"}, {"b", "b"}} {
+		for _, pair := range [][]string{{"a", "a/b"}, {"a/b", "b"}, {"*", "a"}, {"a/*", "*/b"}, {"o:a", "a"}, {"b", "b"}, {"c/*", "c/at"}, {"a/k", "a/*"}} {
 			add(sub05{target: tg, paths: pair, mode: pb.SubscriptionList_ONCE}, sb)
 			for polls := 0; polls <= 2; polls++ {
 				add(sub05{target: tg, paths: pair, mode: pb.SubscriptionList_POLL, polls: polls}, sb-polls/2)
